@@ -105,12 +105,41 @@ def audit(prop_module_file):
     return res, out, r.returncode
 
 
-def grep_forbidden():
+def import_closure(module):
+    """Files (relative to lean/) that `module` transitively imports from this project, itself included."""
+    seen, todo = [], [module]
+    while todo:
+        m = todo.pop()
+        rel = m.replace(".", "/") + ".lean"
+        if rel in seen or not os.path.exists(os.path.join(LEAN, rel)):
+            continue
+        seen.append(rel)
+        for line in open(os.path.join(LEAN, rel)):
+            mm = re.match(r"\s*(?:public\s+)?import\s+(UberjobModel\.[\w\.]+)", line)
+            if mm:
+                todo.append(mm.group(1))
+    return seen
+
+
+def grep_forbidden(prop=None):
+    """Forbidden tokens in every project file the property's theorems depend on (and in the driver's closure)."""
     hits = []
-    for root, _, files in os.walk(LEAN):
+    files = import_closure(f"UberjobModel.Props.{prop}") if prop else None
+    if files is not None:
+        for line in open(os.path.join(LEAN, "Driver.lean")):
+            mm = re.match(r"\s*import\s+(UberjobModel\.[\w\.]+)", line)
+            if mm:
+                for f in import_closure(mm.group(1)):
+                    if f not in files:
+                        files.append(f)
+        files.append("Driver.lean")
+        walk = [(LEAN, None, files)]
+    else:
+        walk = os.walk(LEAN)
+    for root, _, fl in walk:
         if ".lake" in root:
             continue
-        for fn in files:
+        for fn in fl:
             if not fn.endswith(".lean"):
                 continue
             p = os.path.join(root, fn)
